@@ -550,7 +550,43 @@ def sig_of(oracle: str | None) -> str:
     return oracle.split(" ")[0]
 
 
+def bad_options_cases(rng):
+    """a call whose options ARGUMENT is unusable (not a mapping) fails before it does anything; the calls after it behave
+    as if it had never been made: a call with options applies them to itself only, a later call without options produces
+    the default output"""
+    import zoo
+    t = zoo.Tup((zoo.Un(zoo.Leaf(v=1)), zoo.Leaf(v=2, s="x")))
+    base = t.as_dict()
+    bads = [{SKIP}, [SORT], "sort_keys", 5, [(SKIP, True, 1)], {SORT: True}.items()]
+    for i, bad in enumerate(bads):
+        fail = None
+        for entry in ("as_dict", "as_obj", "to_json"):
+            try:
+                if entry == "as_dict":
+                    t.as_dict(serialization_options=bad)
+                elif entry == "to_json":
+                    t.to_json(serialization_options=bad)
+                else:
+                    type(t).as_obj(base, serialization_options=bad)
+            except Exception:  # noqa
+                pass
+            with_opts = t.as_dict(serialization_options={SKIP: True, SORT: True})
+            after = t.as_dict()
+            so, sd = slots()
+            if "__type" in with_opts:
+                fail = f"after {entry}(options={bad!r}): a call WITH SKIP_CLASS still carries a type tag"
+            elif after != base:
+                fail = f"after {entry}(options={bad!r}) and a call with options: the default output changed"
+            elif so != {} or sd is not None:
+                fail = f"after {entry}(options={bad!r}): option state left {so!r} / {sd}"
+            if fail:
+                break
+        yield Case("directed:bad-options", None, None, True, f"options argument {bad!r} (not a mapping), then a call with options, then a default call",
+                   oracle_fail=fail, sig="opts|directed|bad-options")
+
+
 def cases(rng: random.Random, tier: str):
+    yield from bad_options_cases(rng)
     n_hist = 140 if tier == "quick" else 2500
     ref = make_ref(rng)
     ref_before = dumps(z.canon_j(ref.as_dict()))     # order-sensitive rendering
